@@ -15,6 +15,16 @@ Theorem C07_frames_within_limit : forall pa k ctr blocks eofd o,
 Proof. exact frames_within_limit. Qed.
 Print Assumptions C07_frames_within_limit.
 
+(** Whatever the frame type: FrameWriter.Write - the single writer every peer
+    connection uses - writes a frame only if its payload is within the limit. *)
+Theorem C07_every_written_frame_within_limit : forall n written,
+  frame_write n = Some written -> n <= 16384 /\ written = 14 + n.
+Proof.
+  intros n written. unfold frame_write. destruct (max_payload <? n) eqn:E; [discriminate|].
+  intros [= <-]. split; [apply N.ltb_ge in E; exact E|reflexivity].
+Qed.
+Print Assumptions C07_every_written_frame_within_limit.
+
 (** Cutting into chunks of at most [m > 0] bytes loses, duplicates and
     reorders nothing, for byte strings of every length. *)
 Theorem C07_chunk_exact : forall m b, 0 < m -> exists cs,
@@ -58,6 +68,7 @@ Theorem C07_source_facts :
   gen_max_payload = max_payload /\ gen_overhead = overhead /\
   gen_nonce_size + gen_tag_size = overhead /\
   gen_encode_rejects_above = max_payload /\ gen_writer_encodes_first = true /\
+  gen_header_size = header_size /\ gen_frame_writers_outside_protocol = 1 /\ gen_raw_stream_writes_in_peer = 0 /\
   gen_wsd_step = max_payload /\
   gen_adapter_capacity = adapter_cap /\ gen_adapter_drops_when_full = true /\
   gen_paths = model_table.
